@@ -57,8 +57,11 @@ def check(sslopt):
 
 
 def grid():
-    for cr, ch, sh, ci in itertools.product([None, ssl.CERT_NONE, ssl.CERT_OPTIONAL, ssl.CERT_REQUIRED], [None, True, False], [None, "sni.example"], [None, "DEFAULT"]):
+    for cr, ch, sh, ci, ver in itertools.product([None, ssl.CERT_NONE, ssl.CERT_OPTIONAL, ssl.CERT_REQUIRED], [None, True, False], [None, "sni.example"],
+                                                 [None, "DEFAULT"], [None, int(ssl.PROTOCOL_TLS_CLIENT), int(ssl.PROTOCOL_TLS)]):
         o = {}
+        if ver is not None:
+            o["ssl_version"] = ver  # only PROTOCOL_TLS_CLIENT contexts start with verification on
         if cr is not None:
             o["cert_reqs"] = cr
         if ch is not None:
@@ -109,7 +112,7 @@ def search(tier="quick", seed=0):
         n += 1
         p = check(o)
         if p:
-            return dict(found=True, witness=dict(kind="sslopt", sslopt={k: (int(v) if k == "cert_reqs" else v) for k, v in o.items()}), detail=p, tried=n)
+            return dict(found=True, witness=dict(kind="sslopt", sslopt={k: (int(v) if k in ("cert_reqs", "ssl_version") else v) for k, v in o.items()}), detail=p, tried=n)
     for kind, fn in (("context", check_context_untouched), ("wrap", check_ws_not_wrapped)):
         n += 1
         p = fn()
@@ -124,7 +127,7 @@ def bounded(tier, seed):
     r = search(tier, seed)
     viol = [dict(check="TLS configuration grid", witness_id="C11:" + repr(r["witness"])[:90], witness=r["witness"], detail=r["detail"])] if r.get("found") else []
     return dict(name="TLS configuration probe: real _ssl_socket / connect with wrap_socket intercepted",
-                bound="cert_reqs x check_hostname x server_hostname x ciphers grid (96 combinations), caller context, ws vs wss", labelled="bounded",
+                bound="cert_reqs x check_hostname x server_hostname x ciphers grid x ssl_version grid (144 combinations), caller context, ws vs wss", labelled="bounded",
                 cases=r["tried"], wall_s=round(time.time() - t0, 2), violations=viol,
                 note="rejection of untrusted / mismatching certificates by OpenSSL is NOT exercised (assumed contract of ssl)")
 
@@ -138,6 +141,8 @@ def replay_witness(w):
         o = dict(w["sslopt"])
         if "cert_reqs" in o:
             o["cert_reqs"] = ssl.VerifyMode(o["cert_reqs"])
+        if "ssl_version" in o:
+            o["ssl_version"] = ssl._SSLMethod(o["ssl_version"])
         return bool(check(o))
     return bool({"context": check_context_untouched, "wrap": check_ws_not_wrapped}[w["kind"]]())
 
